@@ -244,6 +244,11 @@ func OracleMetrics(tr *Trace) ([]Finding, int) {
 			}
 		}
 		member, total := 1, 1
+		if sp != nil && sp.Membership == "dynamic" && sp.FirstInfo[1] > 0 {
+			// the first open cannot be computed from anything but the first numbering (GetInfo blocks until it is there),
+			// whatever the order in which the harness logged it and the node saw the first stream request
+			member, total = sp.FirstInfo[0], sp.FirstInfo[1]
+		}
 		rebalances := 0
 		for _, r := range tr.Log {
 			if r.T >= m.TCall {
